@@ -21,6 +21,11 @@ def run(tier, seed):
         {"prog": "exit", "strategy": "random", "runs": (80, 1000), "args": ["--park", "6", "--rate", "3"]},
         {"prog": "page-delete", "strategy": "random", "runs": (80, 1000), "args": ["--snap", "3", "--park", "6", "--rate", "3"]},
         {"prog": "page", "strategy": "pct", "runs": (60, 800), "args": ["--snap", "3", "--park", "6"]},
+        # a limit on the segments per thread: the owner abandons segments by force (their pages may have remote frees pending on its delayed list) while other threads free into them
+        {"prog": "page-huge", "strategy": "random", "runs": (60, 800), "args": ["--snap", "3", "--rate", "3"], "env": {"MIMALLOC_TARGET_SEGMENTS_PER_THREAD": "2"}},
+        {"prog": "page-huge", "strategy": "pct", "runs": (40, 600), "args": ["--snap", "3"], "env": {"MIMALLOC_TARGET_SEGMENTS_PER_THREAD": "2"}},
+        {"prog": "page", "strategy": "random", "runs": (40, 600), "args": ["--snap", "3", "--size", "600000", "1048576", "--spurious", "1"], "env": {"MIMALLOC_TARGET_SEGMENTS_PER_THREAD": "2"}},
+        {"prog": "exit", "strategy": "random", "runs": (60, 800), "args": ["--size", "600000", "1048576", "--rate", "3"], "env": {"MIMALLOC_TARGET_SEGMENTS_PER_THREAD": "2"}},
         {"prog": "page-aligned", "strategy": "random", "runs": (120, 1500), "args": ["--snap", "3", "--spurious", "1", "--rate", "3"]},
         {"prog": "page-aligned", "strategy": "pct", "runs": (80, 1000), "args": ["--snap", "3"]},
         {"prog": "page-delete", "strategy": "random", "runs": (100, 1500), "args": ["--snap", "3", "--spurious", "1", "--rate", "3"]},
